@@ -1,7 +1,8 @@
 (* C06 — TCP stream reassembly (DataTracker / Flow / legacy TCPStream).
    Only statements closed by [exact], non-vacuity examples and Print Assumptions. *)
 From LT Require Import Base.Prelude Base.CInt Gen.Kernels Model.DataTracker
-  Proofs.ZMapFacts Proofs.Seq32 Proofs.DataTracker_acc Proofs.DataTracker_fuel.
+  Proofs.ZMapFacts Proofs.Seq32 Proofs.DataTracker_acc Proofs.DataTracker_fuel
+  Proofs.DataTracker_prefix Proofs.DataTracker_wrap.
 Local Open Scope Z_scope.
 
 (* The generated sequence comparison IS RFC 1982 serial comparison by relative offset. *)
@@ -35,3 +36,61 @@ Example C06_nonvacuous :
   let st := fold_left dt_apply [OSeg 4294967293 [10;11;12;13]; OSeg 4294967295 [12;13;14]] (dt_new 4294967290) in
   srt (-1) (dt_buf st) /\ 0 <= dt_seq st < 4294967296 /\ dt_total st = 7 /\ sum_len (dt_buf st) = 7.
 Proof. vm_compute. repeat split; congruence. Qed.
+
+(* "the data handed to the application is at every moment a prefix of that stream with each byte delivered exactly once,
+   for any initial sequence number including ones that wrap past 2^32.  As soon as every byte up to some position has
+   arrived everything up to it has been delivered and nothing at or below it stays buffered":
+   for EVERY stream s shorter than half the sequence space, EVERY initial sequence number isn (the stream may cross 2^32
+   anywhere) and EVERY finite list of segments (offset, bytes) of s -- any order, duplicates, retransmissions with other
+   boundaries, overlaps, empty segments -- every call returns normally (no out-of-bounds site, no fuel exhaustion) and at
+   the end (hence, the list being arbitrary, after every call)
+     - the cumulative delivered data is s[0:p) with p = (seq_number_ - isn) mod 2^32, no more, no less, each byte once;
+     - every position below p is covered by an arrived segment and p itself is covered by none: p is the longest
+       contiguous covered prefix;
+     - every buffered chunk starts strictly after p, holds exactly the stream's bytes for its range, and only covered
+       positions; every covered position is either delivered or buffered.
+   [run isn st segs] folds process_payload over the segments with sequence numbers isn + offset. *)
+Theorem C06_delivered_is_covered_prefix : forall s isn, 0 <= isn < 4294967296 -> zlen s < 2147483648 ->
+  forall segs, Forall (seg_ok s) segs ->
+  exists st, run isn (dt_new isn) segs = Some st /\
+    let p := w32 (dt_seq st - isn) in
+    0 <= p <= zlen s /\ dt_out st = zfirstn p s /\
+    (forall i, 0 <= i < p -> covered segs i) /\ ~ covered segs p /\
+    (forall k v, In (k, v) (dt_buf st) ->
+       let o := w32 (k - isn) in
+       p < o /\ at_off s o v /\ forall i, o <= i < o + zlen v -> covered segs i) /\
+    (forall i, covered segs i ->
+       0 <= i < p \/ exists k v, In (k, v) (dt_buf st) /\ w32 (k - isn) <= i < w32 (k - isn) + zlen v).
+Proof. exact delivered_prefix_any_isn. Qed.
+Print Assumptions C06_delivered_is_covered_prefix.
+
+(* the tracker started at isn IS the tracker started at 0 with shifted numbers (std::map's numeric key order and the
+   wrap of the erase loop from end() to begin() notwithstanding) *)
+Theorem C06_any_isn_simulates_zero : forall s isn, 0 <= isn < 4294967296 -> zlen s < 2147483648 ->
+  forall segs st, PInv s 0 st -> Forall (seg_ok s) segs ->
+  run isn (T isn st) segs = option_map (T isn) (run 0 st segs).
+Proof. exact run_sim. Qed.
+Print Assumptions C06_any_isn_simulates_zero.
+
+(* non-vacuity: a 12-byte stream that crosses 2^32 after 5 bytes, segments reversed, overlapping, one duplicated, one
+   empty: the hypotheses hold, nothing is delivered until the first byte arrives, then everything *)
+Example C06_prefix_nonvacuous :
+  let s := [1;2;3;4;5;6;7;8;9;10;11;12] in
+  let isn := 4294967291 in
+  let segs := [(8, [9;10;11;12]); (3, [4;5;6;7;8;9]); (3, [4;5]); (6, []); (8, [9;10;11;12]); (1, [2;3;4])] in
+  Forall (seg_ok s) segs /\ 
+  (option_map (fun st => (dt_seq st, dt_out st, dt_buf st)) (run isn (dt_new isn) segs)
+    = Some (isn, [], [(1, []); (3, [9;10;11;12]); (4294967292, [2;3;4]); (4294967294, [4;5;6;7;8;9])])) /\ 
+  (option_map (fun st => (dt_seq st, dt_out st, dt_buf st)) (run isn (dt_new isn) (segs ++ [(0, [1;2])]))
+    = Some (7, s, [])).
+Proof.
+  cbn zeta. split.
+  - repeat constructor; unfold seg_ok, at_off; cbn [fst snd].
+    + exists [1;2;3;4;5;6;7;8], []. split; reflexivity.
+    + exists [1;2;3], [10;11;12]. split; reflexivity.
+    + exists [1;2;3], [6;7;8;9;10;11;12]. split; reflexivity.
+    + exists [1;2;3;4;5;6], [7;8;9;10;11;12]. split; reflexivity.
+    + exists [1;2;3;4;5;6;7;8], []. split; reflexivity.
+    + exists [1], [5;6;7;8;9;10;11;12]. split; reflexivity.
+  - split; vm_compute; reflexivity.
+Qed.
